@@ -609,3 +609,114 @@ def check_hashorder(ctx, led, rule="C19.hashorder"):
             if sf.sets and not seen:
                 led.ok(rule, "%s sets %s" % (f.qualname, sorted(sf.sets)), m.where(f.node), "set order does not reach a result")
     return n, nsets
+
+
+# ---------------------------------------------------------------------------------------------
+# results kept in state that outlives the call (caches): the key must determine the value
+
+
+def _name_is_read(ctx, table_src):
+    """Is the container loaded anywhere in the package other than as the base of a subscript store?"""
+    last = table_src.split(".")[-1].split("[")[0]
+    for m in ctx.repo.modules.values():
+        store_bases = set()
+        for n in ast.walk(m.tree):
+            if isinstance(n, (ast.Assign, ast.AugAssign)):
+                tg = n.targets if isinstance(n, ast.Assign) else [n.target]
+                for t in tg:
+                    if isinstance(t, ast.Subscript):
+                        store_bases.add(id(t.value))
+                    elif isinstance(t, (ast.Name, ast.Attribute)):
+                        store_bases.add(id(t))
+        for n in ast.walk(m.tree):
+            if id(n) in store_bases:
+                continue
+            if isinstance(n, ast.Attribute) and n.attr == last and isinstance(n.ctx, ast.Load):
+                return True
+            if isinstance(n, ast.Name) and n.id == last and isinstance(n.ctx, ast.Load):
+                return True
+    return False
+
+
+def check_shared_memo(ctx, led, prop):
+    """Every object model built in this run: a store into a class- or module-level table that the
+    package also reads (a cache) makes what a later call computes depend on what an earlier call
+    left behind - unless the key determines the stored value.  Decided on the value graph: the
+    value may depend on metric slots / minor version only through the key (dependence), and the
+    key must separate any two values of such a slot that the stored value separates (for every
+    value of the other metrics).  A correctly keyed memo is silent."""
+    from .interp import TupleVal
+    from .interp_expr import deps_of
+    from .rules_flow import pinned_canon
+    from .rules_out import distinguishes
+    from .terms import ABSENT, Term
+
+    rule = "%s.state.memo" % prop
+    n = 0
+    for mk, om in list(ctx.memo.items()):
+        if not (isinstance(mk, tuple) and mk and mk[0] == "objmodel") or isinstance(om, Exception):
+            continue
+        seen = set()
+        for e in om.ev.events:
+            if e.kind != "global_write" or "key" not in e.data:
+                continue
+            table = e.data.get("table") or "?"
+            where = e.where()
+            if (table, where) in seen:
+                continue
+            seen.add((table, where))
+            if not _name_is_read(ctx, table):
+                continue
+            n += 1
+            key, value = e.data["key"], e.data["value"]
+            vals = list(value.items) if isinstance(value, TupleVal) else [value]
+            vals = [x for x in vals if isinstance(x, Term)]
+            kd = deps_of(key) if isinstance(key, (Term, TupleVal)) else set()
+            vd = set()
+            for x in vals:
+                vd |= deps_of(x)
+            slots = sorted(s for s in vd if s.startswith("m:") or s == "minor")
+            fq = getattr(getattr(e, "func", None), "qualname", None) or "?"
+            ck = "%s::%s" % (fq, table)
+            missing = [s for s in slots if s not in kd]
+            keys = list(key.items) if isinstance(key, TupleVal) else [key]
+            # a slot the value does not really separate (absent vs Not Defined) need not be in the key
+            bad = None
+            st = om.st
+            for s in slots:
+                dom = list(st.folder().domain(s))
+                for i in range(len(dom)):
+                    for j in range(i + 1, len(dom)):
+                        c1, c2 = dom[i], dom[j]
+                        try:
+                            a = pinned_canon(om, st, {s: (c1,)}, vals)
+                            b = pinned_canon(om, st, {s: (c2,)}, vals)
+                        except AnalysisError:
+                            a = b = None
+                        if a is not None and b is not None and all(x == y for x, y in zip(a, b)):
+                            continue  # the stored value does not tell c1 from c2
+                        if s in missing or not any(isinstance(k, Term) and distinguishes(om, st, k, s, c1, c2) for k in keys):
+                            bad = (s, c1, c2)
+                            break
+                    if bad:
+                        break
+                if bad:
+                    break
+            if bad:
+                s, c1, c2 = bad
+
+                def show(c):
+                    return "omitted" if c is ABSENT else str(c)
+
+                what = "minor version %s / %s" % (c1, c2) if s == "minor" else "%s %s / %s" % (s[2:], show(c1), show(c2))
+                led.violation(
+                    rule,
+                    ck,
+                    where,
+                    "a result is kept in the shared table %s, which the package consults again, under a key that does not determine it: "
+                    "two inputs that differ in %s get the same key but different stored values, so what an object reports depends on "
+                    "what was constructed earlier in the process" % (table, what),
+                )
+            else:
+                led.ok(rule, ck, where, "shared table %s: the key determines the stored value (%d slots examined)" % (table, len(slots)))
+    return n
